@@ -147,7 +147,7 @@ def match_known(prop_id, violation, known):
     for k in known:
         if k.get("status") != "known" or k.get("property") != prop_id:
             continue
-        if k.get("key") == violation.get("key"):
+        if violation.get("key", "").startswith(k.get("key_prefix", "\0")):
             return k
     return None
 
@@ -219,13 +219,19 @@ def check_main(prop, argv):
 
     known_matched = []
     new_keys = []
+    by_entry = {}
     for key in sorted(by_key):
         k = match_known(prop.id, by_key[key][0], known)
         if k is not None:
             known_matched.append(key)
-            print(f"KNOWN-FINDING: property={prop.id} {k.get('what', key)} [key={key}, {len(by_key[key])} occurrence(s)]")
+            e = by_entry.setdefault(k["key_prefix"], {"what": k.get("what", key), "keys": [], "n": 0})
+            e["keys"].append(key)
+            e["n"] += len(by_key[key])
         else:
             new_keys.append(key)
+    for prefix in sorted(by_entry):
+        e = by_entry[prefix]
+        print(f"KNOWN-FINDING: property={prop.id} {e['what']} [matched keys {e['keys']}, {e['n']} occurrence(s)]")
 
     reported = 0
     ctx = None
